@@ -1250,6 +1250,18 @@ impl<'a> Run<'a> {
         self.w.v.consensus_fault.replace(None);
     }
 
+    /// scripted: a valid consensus-fault report, optionally with the reporter transfer failing
+    fn report_fault_exact(&mut self, fail_reporter_send: bool) {
+        let miner = self.w.miner;
+        let epoch = self.w.v.epoch();
+        let reporter = self.w.reporter;
+        self.w.v.consensus_fault.replace(Some(ConsensusFault { target: miner, epoch: epoch - 1, fault_type: ConsensusFaultType::DoubleForkMining }));
+        let plan = if fail_reporter_send { Some((1, ExitCode::USR_FORBIDDEN)) } else { None };
+        let p = ReportConsensusFaultParams { header1: vec![1], header2: vec![2], header_extra: vec![] };
+        self.go("report_fault", reporter, miner, TokenAmount::zero(), MinerMethod::ReportConsensusFault as u64, Some(p), plan);
+        self.w.v.consensus_fault.replace(None);
+    }
+
     fn award(&mut self) {
         let penalty = match self.r.below(4) { 0 => TokenAmount::zero(), 1 => ta(self.r.below(1 << 40) as i128), _ => ta(self.r.below(200) as i128 * FIL / 4) };
         let p = AwardBlockRewardParams { miner: self.w.miner, penalty, gas_reward: ta(self.r.below(1 << 50) as i128), win_count: self.r.range(1, 3) };
@@ -1388,7 +1400,29 @@ enum Act {
     Ticks,
 }
 
+/// corpus: the witness history of finding F5 (kept as a regression once the defect is repaired):
+/// a consensus fault reported twice, 1000 epochs apart, the first time with the reporter transfer failing
+fn run_scripted(stats: &mut Stats) -> (Case, Vec<serde_json::Value>) {
+    let plan = Plan { extra_fil: 100, pad: true, small_batches: false, circ_fil: 1_000_000, workflow_onboard: 0, fault_age_periods: 0 };
+    let w = setup(&plan);
+    CLAIM_LOSS_EXPLAINED.with(|c| *c.borrow_mut() = false);
+    CHARGED_SEEN.with(|c| *c.borrow_mut() = false);
+    let init = snapshot(&w).coq();
+    let mut run = Run { w, r: Prng::new(7), stats, h: Hist { steps: vec![], script: vec!["scripted F5 witness".into()], fails: vec![], accepted_penalised: false, rejected: false },
+        seed: 0, case: u64::MAX, agenda: vec![], want_sectors: 0, cron_faults: false, len: 0 };
+    run.report_fault_exact(true);
+    let e = run.w.v.epoch();
+    run.w.v.set_epoch(e + 1000);
+    run.report_fault_exact(false);
+    let owner = run.w.owner;
+    run.withdraw(owner, true);
+    (Case { init, steps: run.h.steps, nontrivial: true }, run.h.fails)
+}
+
 fn run_case(seed: u64, k: u64, len: usize, stats: &mut Stats) -> (Case, Vec<serde_json::Value>) {
+    if k == u64::MAX {
+        return run_scripted(stats);
+    }
     let mut root = Prng::new(seed);
     for _ in 0..k { root.next_u64(); }
     let mut r = root.fork(k);
@@ -1441,6 +1475,11 @@ fn main() {
         cw.push(case);
         all_fails.extend(fails);
     } else {
+        {
+            let (case, fails) = run_case(a.seed, u64::MAX, a.len, &mut stats);
+            cw.push(case);
+            all_fails.extend(fails);
+        }
         for k in 0..a.cases {
             let (case, fails) = run_case(a.seed, k as u64, a.len, &mut stats);
             cw.push(case);
